@@ -67,6 +67,77 @@ def lock_probe():
         shutil.rmtree(tmp, ignore_errors=True)
 
 
+LATE_SUITE = """import threading
+import lemoncheesecake.api as lcc
+
+GO, DONE, HOLD = threading.Event(), threading.Event(), []
+
+
+class Late(lcc.Thread):
+    def run(self):
+        GO.wait(20)            # the thread only begins when test b has begun
+        super().run()
+
+
+def work():
+    lcc.log_info("late|a|1")
+    if %(with_step)r:
+        lcc.set_step("late step")
+    lcc.log_info("late|a|2")
+    DONE.set()
+
+
+@lcc.suite("s1")
+class s1:
+    @lcc.test("a")
+    def a(self):
+        lcc.log_info("main|a")
+        th = Late(target=work)
+        th.start()
+        HOLD.append(th)
+%(b_here)s
+
+%(b_there)s
+"""
+LATE_B = """    @lcc.test("b")
+%(dep)s    def b(self):
+        lcc.log_info("main|b|1")
+        GO.set()
+        DONE.wait(20)
+        HOLD[0].join(20)
+        lcc.log_info("main|b|2")
+"""
+
+
+def late_thread_scenario(nb_threads, with_step, other_suite):
+    """A real `lcc run` (in a child process) of a two-test project; returns {test name: [log messages]} of its report."""
+    import json
+    import subprocess
+    import lib
+    d = tempfile.mkdtemp(prefix="lccverif_late_")
+    try:
+        os.mkdir(os.path.join(d, "suites"))
+        b = LATE_B % {"dep": "    @lcc.depends_on('s1.a')\n" if nb_threads > 1 else ""}     # b begins after a has ended
+        src = LATE_SUITE % {"with_step": with_step, "b_here": "" if other_suite else b,
+                            "b_there": ("@lcc.suite('s2')\nclass s2:\n" + b) if other_suite else ""}
+        with open(os.path.join(d, "suites", "s1.py"), "w") as f:
+            f.write(src)
+        env = dict(os.environ, PYTHONPATH=lib.REPO)
+        code = ("import sys, json\nfrom lemoncheesecake.cli.main import main\nrc = main(['run', '--threads', '%d'])\n"
+                "from lemoncheesecake.reporting import load_report\nr = load_report('report')\n"
+                "out = {}\n"
+                "for t in r.all_tests():\n"
+                "    out[t.name] = [l.message for s in t.get_steps() for l in s.get_logs() if hasattr(l, 'message')]\n"
+                "print('RESULT ' + json.dumps(out))\n" % nb_threads)
+        p = subprocess.run([lib.PY, "-c", code], cwd=d, env=env, stdout=subprocess.PIPE, stderr=subprocess.PIPE, timeout=120)
+        for line in p.stdout.decode(errors="replace").splitlines():
+            if line.startswith("RESULT "):
+                return json.loads(line[7:])
+        raise RuntimeError("no result: %s %s" % (p.stdout.decode(errors="replace")[-400:], p.stderr.decode(errors="replace")[-600:]))
+    finally:
+        shutil.rmtree(d, ignore_errors=True)
+
+
 def check(run):
     run.trusted += engine.TRUSTED + ["atomicity of list.append / set.add / threading.local under the GIL is assumed; the attachment "
                                      "lock is exercised by a settrace probe pausing a thread inside the critical section"]
@@ -81,6 +152,23 @@ def check(run):
         run.count("lock_probes")
         if not ok:
             run.violation("attachment-lock-not-exclusive", str(detail), {"probe": "lock_probe", "detail": str(detail)})
+    # lcc.Thread objects that their test does not join: the thread begins to run (and logs) only when the NEXT test has begun on
+    # the same worker; what it emits still belongs to the test that started it
+    for k, (nthreads, with_step, other_suite) in enumerate([(1, False, False), (1, True, False), (1, True, True), (2, True, False)]):
+        run.evaluations += 1
+        run.count("late_thread_scenarios")
+        try:
+            got = late_thread_scenario(nthreads, with_step, other_suite)
+        except Exception as e:      # noqa: BLE001
+            run.tie_broken("late-thread scenario could not be run", detail="%s: %s" % (type(e).__name__, str(e)[-800:]))
+            continue
+        want = {"a": ["main|a", "late|a|1", "late|a|2"], "b": ["main|b|1", "main|b|2"]}
+        bad = [(t, sorted(got.get(t, [])), sorted(w)) for t, w in want.items() if sorted(got.get(t, [])) != sorted(w)]
+        if bad:
+            run.violation("late-thread-logs-in-another-test",
+                          "a thread started by test a and not joined by it logs while test b runs: test %s holds %s instead of %s" % bad[0],
+                          {"scenario": {"nb_threads": nthreads, "thread_sets_a_step": with_step, "next_test_in_another_suite": other_suite},
+                           "logs_per_test": got})
     run.coverage["rule"] = ("seeded random projects biased towards user threads (nested), self-describing payloads "
                             "('<owner>#<thread path>|<n>'), 2..4 (thorough ..8) worker threads, adversarial schedules; oracle: payload "
                             "vs location/thread/step in the event stream and in the report, attachment names and contents; "
